@@ -307,6 +307,46 @@ class _ScopeSpy:
             setattr(cls, m, f)
 
 
+def definer_binding_runs(chk):
+    """Absolute form of the binding clause for the constructs that *define* a name (import alias, import, defn, defclass): after the
+    definer, every spelling of the identifier refers to what the definer bound - inside a let that binds the same identifier, in a
+    function under such a let, and through nonlocal/global - while a let-bound name with another mangling keeps its binding.  Run
+    by CPython; the expected values are those of the equivalent Python program."""
+    import types
+    progs = {
+        "import alias under a let of the alias": ('(let [{a} "let"] (import math [sqrt :as {b}]) ({c} 4))', 2.0),
+        "import alias in a function under a let of the alias": ('(let [{a} "let"] (defn uf [] (import math [sqrt :as {b}]) ({c} 4)) (uf))', 2.0),
+        "import alias: the imported name is not bound": ('(let [sqrt "let"] (import math [sqrt :as {b}]) [sqrt ({c} 4)])', ["let", 2.0]),
+        "import alias at module level, rebound through nonlocal": ('(import math [sqrt :as {a}]) (defn uf [] (nonlocal {b}) (setv {b} 5)) (uf) {c}', 5),
+        "import alias at module level, read in a function": ('(import math [sqrt :as {a}]) (defn uf [] ({b} 4)) [(uf) ({c} 9)]', [2.0, 3.0]),
+        "two aliases in one import": ('(let [{a} "let"] (import math [sqrt :as {b} floor :as uq]) [({c} 4) (uq 1.5)])', [2.0, 1]),
+        "module alias under a let of the alias": ('(let [{a} "let"] (import math :as {b}) (. {c} pi))', __import__("math").pi),
+        "defn under a let of the name": ('(let [{a} "let"] (defn {b} [] 1) ({c}))', 1),
+        "defclass under a let of the name": ('(let [{a} "let"] (defclass {b} []) (isinstance {c} type))', True),
+        "a let-bound name with another mangling keeps its binding": ('(let [u-other "let"] (import math [sqrt :as {b}]) [u-other ({c} 4)])', ["let", 2.0]),
+    }
+    for label, (tmpl, want) in progs.items():
+        bad = None
+        n = 0
+        for cls, sp in SPELLINGS.items():
+            m = mangle(sp[0])
+            opts = [*sp, m]
+            for i, a in enumerate(opts):
+                trip = (a, opts[(i + 1) % len(opts)], opts[(i + 2) % len(opts)])
+                src = tmpl.format(a=trip[0], b=trip[1], c=trip[2])
+                try:
+                    got = hy.eval(hy.read_many(src), module=types.ModuleType("hv_c34d"))
+                except Exception as e:  # noqa: BLE001
+                    got = f"{type(e).__name__}: {e}"[:160]
+                n += 1
+                chk.case(("definer", label, cls, i))
+                if got != want and bad is None:
+                    bad = (src, got)
+        chk.ob(f"definer/{label}: every spelling refers to what the definer bound", bad is None and n >= len(SPELLINGS), "cpython-oracle",
+               "exhaustive_finite", detail=f"{n} programs" if bad is None else f"{bad[0]} -> {bad[1]!r}, expected {want!r}",
+               replay=None if bad is None else {"confirmed": True, "input": bad[0], "observed": repr(bad[1]), "expected": repr(want)})
+
+
 def binding_identity(chk):
     import itertools
     T = templates()
@@ -463,6 +503,7 @@ def run(chk):
     runtime_contracts(chk)
     local_macro_names_injective(chk)
     binding_identity(chk)
+    definer_binding_runs(chk)
     chk.fn("hy/compiler.py::compile_symbol, compile_expression, _compile_collect", "hy/core/result_macros.py::compile_attribute_access, "
            "compile_arguments_set, compile_function_def, compile_class_expression, compile_import, compile_global_or_nonlocal, "
            "compile_pattern, compile_try_expression, compile_let, compile_deftype, digest_type_params",
